@@ -136,6 +136,94 @@ theorem reader_error_contained (cfg : Cfg) (hd : cfg.dbg = true) (k : Nat) (f : 
     (loadProject cfg (insertFileAt k (f, srcOfLines m classify lines) good)).reg = (loadProject cfg good).reg :=
   project_contained cfg hd k f _ (by simp [srcOfLines, h, srcOutcome, Outcome.isSkipped]) good
 
+/-! ## the reader at the end of the file (truncated sources) -/
+
+/-- **The reader stops at the end of the file, in whatever state it is.**  When the physical
+    lines run out - after a complete statement, in the middle of a continued statement,
+    inside a `!>` / `!|` block whose statement never came, inside a `!*` block - nothing
+    more is yielded and no further line is asked for: the iteration ends (what is
+    buffered is dropped). -/
+theorem reader_stops_at_eof (m : Marks) (s : RS) : readFrom m s [] = .ok [] := rfl
+
+/-- **The real reader does so too** (table `Gen.eofProbes`, regenerated on every run by
+    running `FortranReader` under a watchdog on files that end in each of its states):
+    on every probe the reader model yields exactly what the code yielded - in particular the
+    code came back (`hung` is not a value of the model) and did not raise. -/
+theorem reader_eof_probes : ∀ p ∈ Gen.eofProbes, readerObs Marks.default p.1 = p.2 := by
+  decide +kernel
+
+/-- **Truncation at any line.**  Cutting a file after any physical line gives the reader a
+    prefix of the logical lines of the whole file: a truncated source is, for the parser,
+    a truncated statement sequence (never something new). -/
+theorem reader_truncation_prefix (m : Marks) (pre suf : List Str) (all : List Str)
+    (h : readAll m (pre ++ suf) = .ok all) :
+    ∃ xs ys, readAll m pre = .ok xs ∧ all = xs ++ ys :=
+  readFrom_prefix m {} pre suf all h
+
+/-- **A source cut inside a unit is contained.**  Take the first `n` physical lines of any
+    file, at any `n`: if the reader model delivers them and the statements run out while a
+    container is open, the file is rejected and the project is the one without it -
+    wherever the file is read. -/
+theorem truncated_source_contained (cfg : Cfg) (hd : cfg.dbg = true) (k : Nat) (f : Str) (m : Marks)
+    (classify : List Str → List Stmt) (lines : List Str) (n : Nat) (items : List Str) (st : MS)
+    (hread : readAll m (lines.take n) = .ok items)
+    (hrun : run cfg initMS (classify items) = .ok st) (hdepth : st.stack.length ≥ 2)
+    (good : List (Str × Src)) :
+    (loadProject cfg (insertFileAt k (f, srcOfLines m classify (lines.take n)) good)).reg
+      = (loadProject cfg good).reg := by
+  apply project_contained cfg hd
+  simp [srcOfLines, hread, srcOutcome, truncated_rejected cfg _ st hrun hdepth, Outcome.isSkipped]
+
+/-! ## nothing outside the project object is touched while a file is parsed -/
+
+/-- **Parsing requests no identifier.**  No constructor asks the process-wide NameSelector
+    for an identifier while a file is parsed (generated table `Gen.reservesAtParse`,
+    probed on the code for every container kind in every parent; `otherReservations`
+    counts requests for anything else): for every statement sequence, accepted or
+    rejected, the parse leaves the name table alone. -/
+theorem parse_reserves_nothing (cfg : Cfg) (ss : List Stmt) :
+    reservedBy cfg ss = [] ∧ Gen.otherReservations = 0 :=
+  ⟨reservedWith_nil _, rfl⟩
+
+/-- **The name table is contained.**  Whatever the additional file is (undecodable, a
+    reader error, any statement sequence - rejected or not) and wherever it is read, the
+    state of the NameSelector when `Project(settings)` returns is the one without it. -/
+theorem names_contained (cfg : Cfg) (hd : cfg.dbg = true) (k : Nat) (f : Str) (bad : Src)
+    (good : List (Str × Src)) :
+    projectNames cfg (insertFileAt k (f, bad) good) = projectNames cfg good := by
+  unfold projectNames
+  rw [hd]
+  have hb : srcReserved cfg bad = [] := by
+    cases bad <;> simp [srcReserved, (parse_reserves_nothing cfg _).1]
+  have : (insertFileAt k (f, bad) good).map (fun f => (srcReserved cfg f.2, toLoad (srcOutcome cfg f.2)))
+      = insertFileAt k (srcReserved cfg bad, toLoad (srcOutcome cfg bad))
+          (good.map (fun f => (srcReserved cfg f.2, toLoad (srcOutcome cfg f.2)))) := by
+    simp [insertFileAt, List.map_take, List.map_drop]
+  rw [this]
+  exact namesFrom_insert_nil k _ hb _
+
+/-- **Identifiers are contained.**  Every entity of the other files gets the same
+    identifier number (`name`, `name~2`, ...) with and without the additional file: the
+    pages and links of the valid files do not move. -/
+theorem idents_contained (cfg : Cfg) (hd : cfg.dbg = true) (k : Nat) (f : Str) (bad : Src)
+    (good : List (Str × Src)) (key : NameKey) :
+    nextNumber (projectNames cfg (insertFileAt k (f, bad) good)) key
+      = nextNumber (projectNames cfg good) key := by
+  rw [names_contained cfg hd]
+
+/-- **Witness: what the empty table excludes.**  Were the identifier of a top-level module
+    requested when its constructor starts (table `[(file, module, "module")]`), a file cut
+    inside that module would be rejected *and* leave its request behind, and an equally
+    named module of a valid file read later would become `m~2`. -/
+theorem reservation_would_leak_witness :
+    parseFile {} [⟨.module, ['M']⟩, ⟨.variable, ['x']⟩, ⟨.contains, []⟩]
+        = .skipped .nested []
+    ∧ reservedWith [(.file, .module, ['m', 'o', 'd', 'u', 'l', 'e'])]
+        (opened {} [⟨.module, ['M']⟩, ⟨.variable, ['x']⟩, ⟨.contains, []⟩])
+        = [(['m', 'o', 'd', 'u', 'l', 'e'], ['m'])]
+    ∧ nextNumber [(['m', 'o', 'd', 'u', 'l', 'e'], ['m'])] (['m', 'o', 'd', 'u', 'l', 'e'], ['m']) = 2 := by
+  decide
+
 /-! ## never hangs -/
 
 /-- The parser's recursion depth (number of open containers) never exceeds the number
@@ -219,6 +307,10 @@ example : parseFile {} [⟨.module, "m".toList⟩, ⟨.endUnit, []⟩, ⟨.endUn
     = .skipped .notImplemented [.endOutside] := by decide
 example : (match readAll Marks.default ["module m".toList, "& x = 1".toList] with
            | .error e => decide (e = .ampStart) | .ok _ => false) = true := by decide
+example : Gen.eofProbes.length ≥ 12 ∧ (Gen.eofProbes.any (fun p => p.2 != .items [] && p.1.length ≥ 2)) = true := by decide
+example : readerObs Marks.default [['m'], ['!', '>', ' ', 'd']] = .items [['m']] := by decide
+example : (opened {} [⟨.module, ['m']⟩, ⟨.contains, []⟩, ⟨.subroutine, ['s']⟩, ⟨.use, ['x']⟩])
+    = [(.file, .module, ['m']), (.module, .subroutine, ['s'])] := by decide
 example : parseFile { dbg := false } [⟨.contains, []⟩] = .skipped .printError [] := by decide
 example : parseFile { skipReported := true } [⟨.contains, []⟩] = .skipped .reported [.unexpectedContains] := by decide
 
